@@ -96,7 +96,7 @@ struct Run {
 	std::vector<std::set<SlotKey>> api_seen, rbc_seen;
 	std::vector<std::map<std::pair<int, int>, long>> fifo_next;       // per party (sender,ctx) -> last delivered slot
 	std::vector<std::vector<std::deque<std::pair<int, std::string>>>> pending; // [p][sender] (ctx,value) buffered inside DeliverFrom
-	std::map<SlotKey, int> agreed;
+	std::map<SlotKey, int> agreed; std::set<std::pair<long, long>> via_ldeliver;   // (sender, ctx) with a delivery that came out of the l-retrieve/l-deliver path
 	// adversary knowledge
 	struct Known { int ctx; std::string id, j, s; std::vector<std::string> pays; bool honest; };
 	std::vector<Known> known; std::map<std::string, int> known_ix;
@@ -293,7 +293,7 @@ bool Run::deliver_call(int p, int mode) {
 	size_t dbuf1 = rbc[p]->deliver_buf.size();
 	bool got = deliv_in_call > 0;
 	if (got && consumed_mi < 0 && dbuf1 < dbuf0) cnt["path_fifo_or_channel_buffer_delivery"]++;
-	if (got && consumed_mi >= 0) { long a = msgs[consumed_mi].act; if (a == 5) cnt["path_request_answer_delivery"]++; else if (a == 7) cnt["path_lretrieve_ldeliver_delivery"]++; else if (a == 3) cnt["path_ready_quorum_delivery"]++; }
+	if (got && consumed_mi >= 0) { long a = msgs[consumed_mi].act; if (a == 5) cnt["path_request_answer_delivery"]++; else if (a == 7) { cnt["path_lretrieve_ldeliver_delivery"]++; const WEv &de = ev.back(); Pay py = pay_decode(de.v); if (py.ok) via_ldeliver.insert({py.sender, py.ctx}); } else if (a == 3) cnt["path_ready_quorum_delivery"]++; }
 	if (dbuf1 > dbuf0) cnt["path_buffered_for_later"]++;
 	if (dbuf1 + ((got && consumed_mi < 0) ? 1 : 0) < dbuf0) cnt["path_obsolete_cleanup"]++;
 	return r;
@@ -519,7 +519,7 @@ void Run::final_checks() {
 	}
 	std::set<SlotKey> all; for (int p : honest_ids) all.insert(api_seen[p].begin(), api_seen[p].end());
 	for (auto &sk : all) { cnt["oracle_totality_slots"]++; if (cfg.byz[sk[0]]) cnt["byz_slots_delivered"]++;
-		for (int p : honest_ids) if (!api_seen[p].count(sk)) bad("C14/totality", "slot (sender " + std::to_string(sk[0]) + ", channel " + cfg.ctx[sk[1]].name + ", slot " + std::to_string(sk[2]) + ") delivered by one honest party but not by party " + std::to_string(p) + " at quiescence"); }
+		for (int p : honest_ids) if (!api_seen[p].count(sk)) bad(via_ldeliver.count({sk[0], sk[1]}) ? "C14/totality/after-l-deliver-retrieval" : "C14/totality", "slot (sender " + std::to_string(sk[0]) + ", channel " + cfg.ctx[sk[1]].name + ", slot " + std::to_string(sk[2]) + ") delivered by one honest party but not by party " + std::to_string(p) + " at quiescence"); }
 }
 
 // ================================================================ JSON
@@ -681,7 +681,7 @@ struct CaseAcc {
 			size_t from = v.at > 250 ? v.at - 250 : 0;
 			violation(v.key, v.what, J().kv("run_in_case", runix).kv("kind", kind).raw("cfg", R.cfg_json()).kv("event_index", (long long)v.at).kv("events_total", (long long)R.ev.size()).raw("trace_before", R.trace_json(from, v.at + 3)).str());
 		}
-		bool keep = (recs == 0) || (!R.viols.empty() && recs < 3);
+		bool keep = (recs == 0 && (ctx.quick() || ctx.cur_case % 12 == 0)) || (!R.viols.empty() && recs < 3);
 		if (keep && R.ev.size() < 6000) { record(R.rec_json()); recs++; count("recorded_runs"); }
 		if (sample.empty() && R.quiescent) {
 			long dl = 0; for (auto &e : R.ev) if (e.k == 'D' && e.x != 2) dl++;
@@ -713,7 +713,7 @@ static std::vector<std::pair<int, int>> links_oldest_first(Run &R) {
 // ---- n = 2: every schedule of one broadcast (sleep sets: one representative per class of
 // schedules that differ only in the order of hand-overs to different parties)
 struct Sys2 {
-	Cfg cfg; uint64_t sa, sb; int sender; bool late_set; CaseAcc &acc; long traces = 0, blocked = 0, nodes = 0, cap;
+	Cfg cfg; uint64_t sa, sb; int sender; bool late_set; CaseAcc &acc; long traces = 0, blocked = 0, nodes = 0, cap; bool use_sleep = true;
 	Sys2(const Cfg &c, uint64_t a, uint64_t b, int snd, bool late, CaseAcc &ac, long cap_) : cfg(c), sa(a), sb(b), sender(snd), late_set(late), acc(ac), cap(cap_) {}
 	// transitions: 0..3 link a*2+b, 4 = receiver's setID
 	static bool indep(int x, int y) { int rx = x == 4 ? -1 : x % 2, ry = y == 4 ? -1 : y % 2; return rx != ry; }
@@ -730,7 +730,7 @@ struct Sys2 {
 		if (en.empty()) { finish_scripted(R); traces++; acc.absorb(R, "sys2", (int)traces); return; }
 		std::vector<int> done; bool any = false;
 		for (int tr : en) {
-			if (sleep.count(tr)) continue;
+			if (use_sleep && sleep.count(tr)) continue;
 			any = true;
 			std::set<int> ns; for (int s : sleep) if (indep(s, tr)) ns.insert(s); for (int s : done) if (indep(s, tr)) ns.insert(s);
 			prefix.push_back(tr); explore(prefix, ns); prefix.pop_back();
@@ -843,7 +843,7 @@ int main(int argc, char **argv) {
 	if (!init_libTMCG()) { fprintf(stderr, "init_libTMCG failed\n"); return 2; }
 	bool quick = ctx.quick();
 	const int RUNS = (int)ctx.option_l("runs_per_case", 10);
-	const int mult = (int)ctx.option_l("mult", quick ? 1 : 60);
+	const int mult = (int)ctx.option_l("mult", quick ? 1 : 25);
 	static const char *SCHEDN[] = {"random", "pct", "starve"};
 	std::vector<RClass> classes;
 	for (int sched = 0; sched < 3; sched++) {
@@ -867,11 +867,12 @@ int main(int argc, char **argv) {
 		case_end(d.str() + std::to_string(ctx.seed), acc.evals > 0, acc.sample, acc.evals, (long long)acc.hashes.size());
 	}
 	// ---- B. n = 2: all schedules of a single broadcast
-	for (int sender = 0; sender < 2; sender++) for (int fifo = 0; fifo < 2; fifo++) for (int late = 0; late < 2; late++) {
-		J d; d.kv("class", "sys2").kv("sender", sender).kv("fifo", fifo).kv("receiver_sets_channel_late", late);
+	for (int raw = 0; raw < (quick ? 1 : 2); raw++) for (int sender = 0; sender < 2; sender++) for (int fifo = 0; fifo < 2; fifo++) for (int late = 0; late < 2; late++) {
+		J d; d.kv("class", "sys2").kv("sender", sender).kv("fifo", fifo).kv("receiver_sets_channel_late", late).kv("sleep_sets", !raw);
 		if (!case_begin(k++, d.str())) continue;
 		CaseAcc acc; Cfg c = fixed_cfg(2, 0, {}, fifo, 0, {{sender, 1}});
 		Sys2 s2(c, ctx.seed * 7919ULL + 5, (uint64_t)k, sender, late, acc, ctx.option_l("sys2_cap", quick ? 1500 : 400000));
+		s2.use_sleep = !raw; if (raw) s2.cap = ctx.option_l("sys2_raw_cap", 6000);
 		std::vector<int> prefix; s2.explore(prefix, {});
 		count("sys2_complete_schedules", s2.traces); count("sys2_sleep_blocked", s2.blocked); count("sys2_nodes", s2.nodes); if (s2.traces >= s2.cap) count("sys2_capped_cases");
 		case_end(d.str(), acc.evals > 0, acc.sample, acc.evals, (long long)acc.hashes.size());
